@@ -130,6 +130,48 @@ def run(chk):
         chk.count(1, key=("cap0", bool(chunks)))
         if s0 != 0 or not np.array_equal(np.asarray(k0.centroids_, dtype=float), init):
             chk.fail("fit(max_iter=0) performed %d iterations / moved the initial centroids" % s0, dict(ctx, cap=0, got=hexlist(k0.centroids_)))
+    # ---- boundary cases of the stopping rule and of the criterion
+    for i in range(6 if chk.tier == "quick" else 60):
+        # (a) no more distinct points than clusters, every cluster non-empty: the distortion reaches exactly 0; training must still end by the cap
+        #     (0/0 in the relative change is not "at or below the threshold") and return the distinct points
+        K, D = r.choice([2, 3]), r.choice([1, 2])
+        g = gen.nprng(r)
+        pts = g.normal(size=(K, D)) * 5
+        X0 = np.repeat(pts, r.choice([2, 3]), axis=0)
+        g.shuffle(X0)
+        init0 = pts + 0.01 * g.normal(size=(K, D))
+        for dask_in in (False, True):
+            ch0 = gen.random_composition(r, len(X0), 3) if dask_in else None
+            try:
+                km0, st0, _ = kt.run_kfit(init0, X0, ch0, cap=4, cthr=1e-3)
+            except Exception as e:
+                chk.fail("k-means on data with as many distinct points as clusters (distortion exactly 0) raises %r" % (e,),
+                         {"init": hexlist(init0), "X": hexlist(X0), "shape": [K, D], "chunks": list(ch0) if ch0 else None})
+                continue
+            chk.count(1, key=("zero-distortion", dask_in))
+            got0 = np.asarray(km0.centroids_, dtype=float)
+            if not np.allclose(got0[np.lexsort(got0.T)], pts[np.lexsort(pts.T)], rtol=1e-12, atol=1e-12):
+                chk.fail("k-means on data with as many distinct points as clusters does not return those points", {"init": hexlist(init0), "X": hexlist(X0), "shape": [K, D]})
+        # (b) "at or below": a threshold EQUAL to the relative change observed at iteration k stops there; threshold 0 stops at the fixed point
+        init, X = kt.gen_clusters(r)
+        if not kt.margin_ok(init, X):
+            continue
+        _, _, cvs = kt.run_kfit(init, X, None, cap=8, cthr=None)
+        for kk, cv in enumerate(cvs):
+            if cv > 0 and all(c > cv for c in cvs[:kk]):
+                kme, ste, _ = kt.run_kfit(init, X, None, cap=8, cthr=float(cv))
+                chk.count(1, key=("threshold-equal", kk + 2))
+                if ste != kk + 2:
+                    chk.fail("a threshold equal to the relative change %r observed at iteration %d does not stop training there (stopped at %d): the rule is 'at or below'"
+                             % (cv, kk + 2, ste), {"init": hexlist(init), "X": hexlist(X), "threshold": float(cv), "cvs": cvs})
+                break
+        if any(c == 0 for c in cvs):
+            kfix = cvs.index(0.0) + 2
+            kmz, stz, _ = kt.run_kfit(init, X, None, cap=12, cthr=0.0)
+            chk.count(1, key=("threshold-zero",))
+            if stz != kfix:
+                chk.fail("threshold 0: training should stop at iteration %d, where the criterion repeats exactly, but stopped at %d" % (kfix, stz),
+                         {"init": hexlist(init), "X": hexlist(X), "cvs": cvs})
     bad, info = cq.run_cases("C06", kt.IMPORTS, "kf_case", "kf_check", terms, shard=100)
     chk.correspondence("KMeansMachine.fit (array / seeded random / k-means|| init read back; NumPy and Dask chunks) ~ KF.fit", len(terms), bad, info)
     return chk.finish(
